@@ -156,17 +156,21 @@ TrigGet(s) == IF Fixed /\ s.c.kind = "filter" THEN TrigGetAll(s) ELSE TrigGet1(s
 NewTok(s, p, prio, flt) == [n |-> NLive(s) + 1, owner |-> p,
                             prio |-> IF HasPrio(s) THEN prio ELSE 0, flt |-> flt]
 
-DoReservePut(s, p, prio) ==
-  LET t  == NewTok(s, p, prio, 1)
+\* with an explicit token number n (callers that keep their own numbering, e.g. Factory)
+DoReservePutN(s, p, prio, n) ==
+  LET t  == [NewTok(s, p, prio, 1) EXCEPT !.n = n]
       s1 == [s EXCEPT !.putQ = InsertSorted(@, t)]
       s2 == TrigPut(s1)
   IN [s |-> s2, r |-> <<"tok", t.n>>]
 
-DoReserveGet(s, p, prio, flt) ==
-  LET t  == NewTok(s, p, prio, IF s.c.kind = "filter" THEN flt ELSE 1)
+DoReserveGetN(s, p, prio, flt, n) ==
+  LET t  == [NewTok(s, p, prio, IF s.c.kind = "filter" THEN flt ELSE 1) EXCEPT !.n = n]
       s1 == [s EXCEPT !.getQ = InsertSorted(@, t)]
       s2 == TrigGet(s1)
   IN [s |-> s2, r |-> <<"tok", t.n>>]
+
+DoReservePut(s, p, prio)      == DoReservePutN(s, p, prio, NLive(s) + 1)
+DoReserveGet(s, p, prio, flt) == DoReserveGetN(s, p, prio, flt, NLive(s) + 1)
 
 (* reserve_put_cancel(event): any caller; pending or granted; else RuntimeError *)
 DoCancelPut(s, n) ==
@@ -203,10 +207,10 @@ DoCancelGet(s, n) ==
      ELSE [s |-> s, r |-> <<"RuntimeError">>]
 
 (* put(event, item): needs a granted token of the calling process *)
-DoPut(s, p, n, tag, delay) ==
+DoPutId(s, p, n, tag, delay, id) ==
   LET ir == IndexOf(s.putRes, LAMBDA t : t.n = n /\ t.owner = p) IN
   IF n = DEAD \/ ir = 0 THEN [s |-> s, r |-> <<"RuntimeError">>] ELSE
-  LET id == Cardinality(ItemIds(s)) + 1
+  LET dummy == 0
       it == [id |-> id, tag |-> tag,
              rem |-> CASE s.c.kind = "buffer" -> delay
                        [] s.c.kind = "filter" -> s.c.trig
@@ -222,6 +226,8 @@ DoPut(s, p, n, tag, delay) ==
                    IF NInside(s1) = s.c.cap THEN [s1 EXCEPT !.act.armed = TRUE] ELSE s1
               [] OTHER -> s1
   IN [s |-> IF s.c.kind = "fleet" THEN TrigGet(TrigGet(s2)) ELSE TrigGet(s2), r |-> <<"ok">>]
+
+DoPut(s, p, n, tag, delay) == DoPutId(s, p, n, tag, delay, Cardinality(ItemIds(s)) + 1)
 
 (* get(event) *)
 DoGet(s, p, n) ==
